@@ -249,6 +249,7 @@ func (s *DiscoveryServer) initConnection(node *core.Node, con *Connection, ident
 	// To ensure push context is monotonically increasing, setup LastPushContext before we addCon. This
 	// way only new push contexts will be registered for this proxy.
 	proxy.LastPushContext = s.globalPushContext()
+	verifGate("init:after-lastpushcontext")
 	// First request so initialize connection id and start tracking it.
 	con.SetID(connectionID(proxy.ID))
 	con.node = node
@@ -268,6 +269,7 @@ func (s *DiscoveryServer) initConnection(node *core.Node, con *Connection, ident
 	// context between initializeProxy and addCon, we would not get any pushes triggered for the new
 	// push context, leading the proxy to have a stale state until the next push.
 	s.addCon(con.ID(), con)
+	verifGate("init:after-addcon")
 	// Register that initialization is complete. This triggers to calls that it is safe to access the
 	// proxy
 	defer con.MarkInitialized()
